@@ -342,6 +342,8 @@ def shapes(tier):
                      [ins("b3", 1, "call:s2")], [ins("b1", 0, "call:ext1")], [dele("b1", 1, 2)], [ins("b4", 1, "ret")],
                      [dele("b0", 1, 2), ins("b1", 1, "call:s2")], [ins("b0", 2, "mov")],
                      [ins("b2", 1, "ret")], [ins("b2", 0, "ret"), ins("b1", 1, "call:s2")],
+                     # one patch that calls the same function twice: the callee returns to both sites
+                     [ins("b1", 1, "twocalls:s2")], [ins("b0", 0, "twocalls:s2")],
                      # the entry block and the block promoted in its place both go, a third block of the function stays
                      [dele("b0", 0, 2), dele("b1", 0, 2)], [dele("b1", 0, 2), dele("b0", 0, 2)]):
             spec = callgraph_layout(second)
@@ -391,6 +393,11 @@ def shapes(tier):
         spec = mixed_layout()
         spec["mods"] = [ins(blk, at, "trail_label_data")]
         out.append(("mixed/%s" % mods_name(spec["mods"]), spec))
+    for at in (0, 1, 3):
+        # the callee (b2, function G) has no caller yet: its ret leads to the unknown-callers proxy
+        spec = text_layout("jcc:s0")
+        spec["mods"] = [ins("b1", at, "twocalls:s2")]
+        out.append(("text/jcc:s0/%s" % mods_name(spec["mods"]), spec))
     for p in ("ripimm:s2", "ripimm4:s0"):
         spec = text_layout("jcc:s0")
         spec["mods"] = [ins("b1", 1, p)]
